@@ -201,6 +201,17 @@ def replay(text, witness):
         return strings != set(g.reserved_syntax_strings)
     if kind in ('rules', 'start'):
         return list(g.nonterminal_to_dfas) != order or g.start_nonterminal != order[0]
+    if kind == 'namespace':
+        import enum
+        from parso.pgen2.generator import generate_grammar, ReservedString
+        from parso.python.token import PythonTokenTypes, TokenType
+        generate_grammar(text, PythonTokenTypes)
+        Alt = enum.Enum('AltTokenTypes', {m.name: TokenType(m.name, m.value.contains_syntax) for m in PythonTokenTypes})
+        g2 = generate_grammar(text, Alt)
+        bad = [k for d in g2.nonterminal_to_dfas.values() for st in d for k in st.transitions
+               if not isinstance(k, ReservedString) and k is not getattr(Alt, k.name, None)]
+        print('token keys from a foreign namespace:', len(bad))
+        return bool(bad)
     if kind == 'nullable':
         return any(pats[n].fullmatch('') for n in order)
     print('no plain replay for witness kind', kind)
